@@ -631,9 +631,11 @@ func paramNames(d *ast.FuncDecl) []string {
 	return out
 }
 
-// shapeNewStack checks newStack(depth, skip, ...): the pc buffer has `depth`
-// entries, runtime.Callers receives `skip` unchanged, and the stack keeps
-// exactly the n entries that were filled.
+// shapeNewStack checks newStack(depth, skip, ...): the pc buffer starts with
+// min(depth, callersDepth) entries and is doubled (up to depth) while runtime.Callers
+// fills it completely - the same capture as one call with a buffer of depth entries -,
+// runtime.Callers receives `skip` unchanged, and the stack keeps exactly the n entries
+// that were filled.
 func shapeNewStack(p *pkgInfo) bool {
 	fi, ok := p.funcs["newStack"]
 	if !ok {
@@ -641,14 +643,15 @@ func shapeNewStack(p *pkgInfo) bool {
 		return false
 	}
 	ps := paramNames(fi.decl)
-	if len(ps) < 2 || len(fi.decl.Body.List) < 3 {
+	if len(ps) < 2 || len(fi.decl.Body.List) != 4 {
 		complain("newStack: unexpected signature or body")
 		return false
 	}
 	rt := p.runtime[p.fileOf[fi.decl]]
 	want := []string{
-		fmt.Sprintf("pcs := make([]uintptr, %s)", ps[0]),
+		fmt.Sprintf("pcs := make([]uintptr, min(%s, callersDepth))", ps[0]),
 		fmt.Sprintf("n := %s.Callers(%s, pcs)", rt, ps[1]),
+		fmt.Sprintf("for n == len(pcs) && len(pcs) < %[1]s { pcs = make([]uintptr, min(%[1]s, 2*len(pcs))) n = %[2]s.Callers(%[3]s, pcs) }", ps[0], rt, ps[1]),
 	}
 	for i, w := range want {
 		if got := norm(render(fi.decl.Body.List[i])); got != w {
@@ -656,9 +659,52 @@ func shapeNewStack(p *pkgInfo) bool {
 			return false
 		}
 	}
-	ret := norm(render(fi.decl.Body.List[2]))
+	ret := norm(render(fi.decl.Body.List[3]))
 	if !strings.HasPrefix(ret, "return &stack{ pcs: pcs[:n],") {
 		complain("newStack does not return &stack{pcs: pcs[:n], ...}: %q", ret)
+		return false
+	}
+	return true
+}
+
+// shapeAddSkip checks that addSkip(a, b) is saturating integer addition (a+b unless that wraps around,
+// then math.MaxInt / math.MinInt) and that the StackSkip option accumulates through it.
+func shapeAddSkip(p *pkgInfo) bool {
+	fi, ok := p.funcs["addSkip"]
+	if !ok {
+		complain("function addSkip not found")
+		return false
+	}
+	ps := paramNames(fi.decl)
+	if len(ps) != 2 || len(fi.decl.Body.List) != 3 {
+		complain("addSkip: unexpected signature or body")
+		return false
+	}
+	a, b := ps[0], ps[1]
+	want := []string{
+		fmt.Sprintf("if %[2]s > 0 && %[1]s > math.MaxInt-%[2]s { return math.MaxInt }", a, b),
+		fmt.Sprintf("if %[2]s < 0 && %[1]s < math.MinInt-%[2]s { return math.MinInt }", a, b),
+		fmt.Sprintf("return %s + %s", a, b),
+	}
+	for i, w := range want {
+		if got := norm(render(fi.decl.Body.List[i])); got != w {
+			complain("addSkip statement %d is %q, expected %q", i+1, got, w)
+			return false
+		}
+	}
+	m, ok := p.methods["stackSkip"]["applyOption"]
+	if !ok {
+		complain("method (*stackSkip).applyOption not found")
+		return false
+	}
+	mps := paramNames(m.decl)
+	recv := "o"
+	if m.decl.Recv != nil && len(m.decl.Recv.List) == 1 && len(m.decl.Recv.List[0].Names) == 1 {
+		recv = m.decl.Recv.List[0].Names[0].Name
+	}
+	if len(mps) != 1 || len(m.decl.Body.List) != 1 ||
+		norm(render(m.decl.Body.List[0])) != fmt.Sprintf("%[1]s.stackSkip = addSkip(%[1]s.stackSkip, %[2]s.skip)", mps[0], recv) {
+		complain("(*stackSkip).applyOption is not `d.stackSkip = addSkip(d.stackSkip, o.skip)`")
 		return false
 	}
 	return true
@@ -684,13 +730,16 @@ func shapeNewError(p *pkgInfo) int {
 			if %[1]s.stackDepth > 0 {
 				depth = %[1]s.stackDepth
 			}
-			stack = newStack(depth, %[1]s.stackSkip+%[2]s, %[1]s.stackSourceLines, %[1]s.stackSourceDepth)
+			stack = newStack(depth, addSkip(%[1]s.stackSkip, %[2]s), %[1]s.stackSourceLines, %[1]s.stackSourceDepth)
 		}`, d, ps[idx]))
 		if norm(render(fi.decl.Body.List[0])) == "var stack *stack" && norm(render(fi.decl.Body.List[1])) == want {
+			if !shapeAddSkip(p) {
+				return -1
+			}
 			return idx
 		}
 	}
-	complain("newError: capture block is not `var stack *stack; if !d.noTrace { depth := callersDepth; if d.stackDepth > 0 { depth = d.stackDepth }; stack = newStack(depth, d.stackSkip+<param>, ...) }`: got %q",
+	complain("newError: capture block is not `var stack *stack; if !d.noTrace { depth := callersDepth; if d.stackDepth > 0 { depth = d.stackDepth }; stack = newStack(depth, addSkip(d.stackSkip, <param>), ...) }`: got %q",
 		norm(render(fi.decl.Body.List[0]))+"; "+norm(render(fi.decl.Body.List[1])))
 	return -1
 }
@@ -830,9 +879,9 @@ func genChain(p *pkgInfo) string {
 		fmt.Fprintf(&b, "Definition skip_%s : Z := %s.\nDefinition via_panic_%s : bool := %s.\nDefinition matched_%s : bool := true.\n\n",
 			c, coqZ(skip), c, coqBool(ch.viaPanic), c)
 	}
-	b.WriteString("(* newStack(depth, skip, ...): make([]uintptr, depth); runtime.Callers(skip, pcs); pcs[:n] *)\n")
+	b.WriteString("(* newStack(depth, skip, ...): a buffer of min(depth, callersDepth) entries, doubled up to depth while runtime.Callers(skip, pcs) fills it; pcs[:n] *)\n")
 	fmt.Fprintf(&b, "Definition newStack_shape_ok : bool := %s.\n", coqBool(okStack))
-	b.WriteString("(* newError: nil stack iff d.noTrace; depth := callersDepth unless d.stackDepth > 0;\n   newStack(depth, d.stackSkip + <skip parameter>, ...) *)\n")
+	b.WriteString("(* newError: nil stack iff d.noTrace; depth := callersDepth unless d.stackDepth > 0;\n   newStack(depth, addSkip(d.stackSkip, <skip parameter>), ...); addSkip = saturating int addition, also used by StackSkip's applyOption *)\n")
 	fmt.Fprintf(&b, "Definition newError_shape_ok : bool := %s.\n\n", coqBool(skipIdx >= 0))
 	b.WriteString("(* which runtime symboliser DebugStack uses: \"runtime.FuncForPC\" (raw pc, FileLine(pc)),\n   \"runtime.CallersFrames\" (the one Frames() uses) or \"unknown\" *)\n")
 	fmt.Fprintf(&b, "Definition debugstack_symboliser : string := %s.\n", coqStr(debugStackSymboliser(p)))
